@@ -9,10 +9,13 @@ def over_stack(rng):
     nl = rng.randint(1, 5)
     path = ['p%d' % d for d in range(depth)]
     layers = []
+    empty_name = rng.random() < 0.08
     for i in range(nl):
         r = rng.random()
         # (a key can be overriding and constant at once: both markers on one key, or one marker per layer)
         key = '~k' if r < 0.4 else (rng.choice(['~=k', '=~k']) if r < 0.5 else ('=k' if r < 0.55 else 'k'))
+        if empty_name:
+            key = key.replace('k', '') if key in ('~k', '=k', 'k') else key      # the key with the empty name: `~`, `=`, ``
         es = [(S(key), V.plain_value(rng, 2))]
         if rng.random() < 0.5:
             es.append((S(rng.choice(['j', '~j'])), V.plain_value(rng, 1)))
@@ -64,7 +67,27 @@ def run(tier, rng, C):
     cases = MC.build_cases(C, stacks)
     for c in cases:
         c['nontrivial'] = V.has_marker(c['layers'], '~')
+    # an overridden member looked up through its (multiply defined) parent: `x: ${q:m}` and `t: "<${q:m}>"`
+    # see what q.m renders to, i.e. only what the override and later layers contribute.  The specification is
+    # applied to the stack with the lookups written out as the layers of q.m themselves.
+    for i in range(200 if tier == 'quick' else 6000):
+        kinds = [k for k in MC.KINDS]
+        nl = rng.randint(2, 4)
+        oi = rng.randint(1, nl - 1)
+        mls = []
+        for j in range(nl):
+            mk = '~m' if j == oi else rng.choice(['m', 'm', '~m', 'n'])
+            mls.append(M((mk, MC.KINDS[rng.choice(kinds)]()), ('o%d' % j, I(j))))
+        deep = rng.random() < 0.4
+        wrap = (lambda v: M(('q', M(('r', v))))) if deep else (lambda v: M(('q', v)))
+        path = 'q:r:m' if deep else 'q:m'
+        layers = [wrap(l) for l in mls] + [M(('x', S('${%s}' % path)))]
+        inl = [wrap(l) for l in mls] + [M(('x' if not k.startswith('~') else '~x', v)) for l in mls for (_, k), v in [((None, l[1][0][0][1]), l[1][0][1])] if k.lstrip('~') == 'm']
+        cid = C.case_id('lk', i)
+        cases.append({'id': cid, 'line': V.stack_line(cid, 'value', layers), 'show': V.stack_show(layers),
+                      'clean': all(MC.clean_layer(l) for l in inl), 'layers': layers, 'nontrivial': True,
+                      'spec_line': V.stack_line(cid, 'spec', inl)})
     rule = ('exhaustive kind stacks containing an override marker (incl. override after a type conflict, override with no '
             'earlier value, kind changes) + %d random stacks with ~k (sometimes ~=k, =~k, =k) at random layers and depth 0-2 with sibling keys; '
-            'non-trivial = an override marker present; plus sequences of 3-5 layers giving one nested key values of random kinds (nulls, empty containers); oracle = extracted Spec/DeepMerge.v' % n)
+            'non-trivial = an override marker present; plus sequences of 3-5 layers giving one nested key values of random kinds (nulls, empty containers); plus overridden members looked up through their multiply defined parent (${q:m}; specification applied to the stack with the lookup written out); oracle = extracted Spec/DeepMerge.v' % n)
     return C.standard_run(cases, rule, key_fn=lambda c, m, i, r: 'model-impl-differ', extra_oracle=MC.spec_oracle(C))
